@@ -13,9 +13,26 @@ every source (any combination of loaded attributes).
 * `merge_noload_no_sql_no_change`, `merge_noload_rejects` — `load=False`.
 * `merge_sql_bound` — at most one SELECT, none when the identity is present.
 * `merge_keeps_identity` — the result has the source's full key, identity token included.
+
+The public entry point `Session.merge` in a Session with autoflush on (`mergeAf true`),
+for every session state — pending instances and pending `Session.delete()`s included:
+
+* `merge_autoflush_guard_is_load`, `merge_body_under_no_autoflush` — the regenerated shape
+  of `Session.merge`: the pre-merge `_autoflush()` is guarded by exactly `if load:`, and
+  `_merge` runs under `no_autoflush` (so that flush is the only one).
+* `merge_autoflush_eq_flush_then_merge` — merge(load=True) = flush, then merge.
+* `merge_autoflush_result_live` — the returned instance is not marked deleted and carries
+  the source's loaded attributes; `merge_autoflush_after_delete_creates` — if the Session
+  held a deleted-marked instance of the identity, the result is a NEW pending instance.
+* `merge_autoflush_finds_pending` — if the identity was pending, merge lands on that (now
+  persistent) instance: nothing pending afterwards, `isNew = false`, no SELECT.
+* `merge_autoflush_persisted` (+ `_after_delete`, `_pending`) — after the next flush the
+  row exists and carries every attribute loaded on the source.
+* `merge_noload_no_flush` — load=False never flushes; `merge_no_autoflush_eq_merge`.
 -/
 namespace SaVerif.Props.C45
 open SaVerif.Merge
+open SaVerif.Gen.MergeCfg
 
 /-- the Session's instance for an identity: identity map, else pending -/
 def destOf (st : St) (k t : Nat) : Option Obj :=
@@ -264,21 +281,306 @@ theorem merge_noload_keeps_identity (st : St) (s : Src) (nw : Bool) (t : Nat) (a
           intro u hu; simp [putObj, hu]
     · simp [hp] at h
 
-/-- a flush never moves an instance to another identity token -/
-theorem flush_keeps_tokens (n : Nat) (st : St) (k t : Nat) (hnew : st.new k = none) :
-    ((step n st .flush).1.objs k t).isSome = (st.objs k t).isSome := by
-  simp only [step]
+/-- a flush never moves an instance to another identity token (instances marked deleted
+    leave the identity map) -/
+theorem flush_keeps_tokens (af : Bool) (n : Nat) (st : St) (k t : Nat) (hnew : st.new k = none)
+    (hdel : st.del k t = false) :
+    ((step af n st .flush).1.objs k t).isSome = (st.objs k t).isSome := by
+  simp only [step, flushSt]
   by_cases hk : k < n
-  · simp only [hk, if_true, hnew]
+  · simp only [hk, if_true, hnew, hdel]
     cases st.objs k t <;> rfl
   · simp only [hk, if_false]
+
+/-- a flush removes exactly the deleted-marked instances, with their row -/
+theorem flush_removes_deleted (n : Nat) (st : St) (k t : Nat) (hk : k < n) (ht : t < 3)
+    (hnew : st.new k = none) (hdel : st.del k t = true) :
+    (flushSt n st).objs k t = none ∧ (flushSt n st).db k = none ∧ (flushSt n st).del k t = false := by
+  have hany : anyDel st k = true := by
+    have : t = 0 ∨ t = 1 ∨ t = 2 := by omega
+    rcases this with h | h | h <;> subst h <;> simp [anyDel, tokens, hdel]
+  simp [flushSt, hk, hnew, hdel, hany]
+
+/-! ## the public entry point: autoflush -/
+
+/-- the guard of the pre-merge `self._autoflush()` in `Session.merge`, as regenerated from
+    the source, is exactly `if load:` -/
+theorem merge_autoflush_guard_is_load : mergeAutoflushGuardIsLoad = true := by decide
+
+/-- `Session.merge` runs `_merge` inside `with self.no_autoflush:` -/
+theorem merge_body_under_no_autoflush : mergeBodyUnderNoAutoflush = true := by decide
+
+theorem afGuard_true (st : St) (s : Src) : afGuard st s = true := by
+  simp [afGuard, merge_autoflush_guard_is_load]
+
+/-- **merge_autoflush_eq_flush_then_merge**: in a Session with autoflush on, merge(load=True)
+    is: flush everything, then merge — whatever the Session holds for the identity -/
+theorem merge_autoflush_eq_flush_then_merge (n : Nat) (st : St) (s : Src) :
+    mergeAf true n true st s = merge true (flushSt n st) s := by
+  simp [mergeAf, afGuard_true]
+
+theorem merge_no_autoflush_eq_merge (n : Nat) (load : Bool) (st : St) (s : Src) :
+    mergeAf false n load st s = merge load st s := by
+  simp [mergeAf]
+
+/-- **merge_noload_no_flush**: load=False never flushes, autoflush on or off: the result
+    is that of `mergeNoLoad` on the unflushed state (so no SQL, by
+    `merge_noload_no_sql_no_change`) -/
+theorem merge_noload_no_flush (af : Bool) (n : Nat) (st : St) (s : Src) :
+    mergeAf af n false st s = mergeNoLoad st s := by
+  simp [mergeAf, merge]
+
+theorem flushSt_new (n : Nat) (st : St) (k : Nat) (hk : k < n) : (flushSt n st).new k = none := by
+  simp [flushSt, hk]
+
+theorem flushSt_del (n : Nat) (st : St) (k t : Nat) (hk : k < n) : (flushSt n st).del k t = false := by
+  simp [flushSt, hk]
+
+/-- after a flush no instance carries history -/
+theorem flushSt_clean (n : Nat) (st : St) (k t : Nat) (o : Obj) (hk : k < n)
+    (h : (flushSt n st).objs k t = some o) : o.a.com = none ∧ o.b.com = none := by
+  simp only [flushSt, hk, if_true] at h
+  have key : ∀ x : Option Obj, x.map flushObj = some o → o.a.com = none ∧ o.b.com = none := by
+    intro x hx
+    cases x with
+    | none => simp at hx
+    | some y => simp only [Option.map, Option.some.injEq] at hx; subst hx; exact ⟨rfl, rfl⟩
+  cases hnw : st.new k with
+  | none =>
+    simp only [hnw] at h
+    by_cases hd : st.del k t = true
+    · simp [hd] at h
+    · simp only [hd, Bool.false_eq_true, if_false] at h; exact key _ h
+  | some p =>
+    cases t with
+    | zero => simp only [hnw, Option.some.injEq] at h; subst h; exact ⟨rfl, rfl⟩
+    | succ t' =>
+      simp only [hnw] at h
+      by_cases hd : st.del k (t' + 1) = true
+      · simp [hd] at h
+      · simp only [hd, Bool.false_eq_true, if_false] at h; exact key _ h
+
+/-- merge never marks or unmarks anything for deletion -/
+theorem mergeLoad_del (st : St) (s : Src) : (mergeLoad st s).1.del = st.del := by
+  unfold mergeLoad
+  cases st.new s.pk with
+  | some _ => rfl
+  | none =>
+    cases st.objs s.pk s.tok with
+    | some o => rfl
+    | none =>
+      cases st.db s.pk with
+      | some r => obtain ⟨va, vb⟩ := r; rfl
+      | none => rfl
+
+/-- **merge_autoflush_result_live**: with autoflush on, the instance merge(load=True) works
+    on and returns is never marked deleted — even when the Session held a deleted-marked
+    instance of that identity before — and every attribute loaded on the source is on it -/
+theorem merge_autoflush_result_live (n : Nat) (st : St) (s : Src) (hk : s.pk < n) :
+    (∀ u, (mergeAf true n true st s).1.del s.pk u = false) ∧
+    ∃ o', destOf (mergeAf true n true st s).1 s.pk s.tok = some o' ∧
+      (∀ v, s.a = some v → o'.a.cur = some v) ∧ (∀ v, s.b = some v → o'.b.cur = some v) := by
+  rw [merge_autoflush_eq_flush_then_merge]
+  simp only [merge, if_true]
+  refine ⟨fun u => by rw [mergeLoad_del]; exact flushSt_del n st s.pk u hk, ?_⟩
+  obtain ⟨o', h1, h2, h3⟩ := merge_copies_loaded (flushSt n st) s (flushSt_new n st s.pk hk)
+  refine ⟨o', h1, ?_, ?_⟩
+  · intro v hv; rw [hv] at h2; exact h2
+  · intro v hv; rw [hv] at h3; exact h3
+
+/-- **merge_autoflush_after_delete_creates**: the Session holds the identity, marked deleted
+    (`Session.delete()` not flushed): the autoflush deletes row and instance, and merge
+    creates a NEW pending instance from the source — it does not copy onto the doomed one -/
+theorem merge_autoflush_after_delete_creates (n : Nat) (st : St) (s : Src) (hk : s.pk < n) (ht : s.tok < 3)
+    (hd : st.del s.pk s.tok = true) (hn : st.new s.pk = none) :
+    (mergeAf true n true st s).2 = .merged true 0 (copyAttr unloaded s.a).cur (copyAttr unloaded s.b).cur true ∧
+    (mergeAf true n true st s).1.objs s.pk s.tok = none ∧
+    (mergeAf true n true st s).1.new s.pk = some ⟨copyAttr unloaded s.a, copyAttr unloaded s.b⟩ := by
+  obtain ⟨h1, h2, _⟩ := flush_removes_deleted n st s.pk s.tok hk ht hn hd
+  rw [merge_autoflush_eq_flush_then_merge]
+  simp only [merge, if_true]
+  unfold mergeLoad
+  simp [flushSt_new n st s.pk hk, h1, h2]
+
+theorem mergeLoad_hit (st1 : St) (s : Src) (o : Obj) (hn : st1.new s.pk = none)
+    (ho : st1.objs s.pk s.tok = some o) :
+    mergeLoad st1 s =
+      ({ st1 with objs := putObj st1.objs s.pk s.tok ⟨copyAttr o.a s.a, copyAttr o.b s.b⟩ },
+       outOf false s.tok ⟨copyAttr o.a s.a, copyAttr o.b s.b⟩) := by
+  unfold mergeLoad
+  simp only [hn, ho]
+
+/-- **merge_autoflush_finds_pending**: the identity is pending in the Session (an earlier
+    merge or `Session.add`): the autoflush makes it persistent and merge lands on THAT
+    instance — no second instance: nothing is pending for the primary key afterwards, the
+    result is not new, and no SELECT was needed -/
+theorem merge_autoflush_finds_pending (n : Nat) (st : St) (s : Src) (p : Obj) (hk : s.pk < n) (ht : s.tok = 0)
+    (hp : st.new s.pk = some p) :
+    (mergeAf true n true st s).1.new s.pk = none ∧
+    (mergeAf true n true st s).2 = outOf false 0 ⟨copyAttr (flushObj p).a s.a, copyAttr (flushObj p).b s.b⟩ ∧
+    (mergeAf true n true st s).1.objs s.pk 0 = some ⟨copyAttr (flushObj p).a s.a, copyAttr (flushObj p).b s.b⟩ ∧
+    (mergeAf true n true st s).1.sql = st.sql := by
+  have ho : (flushSt n st).objs s.pk 0 = some (flushObj p) := by simp [flushSt, hk, hp]
+  rw [merge_autoflush_eq_flush_then_merge]
+  simp only [merge, if_true]
+  rw [mergeLoad_hit (flushSt n st) s (flushObj p) (flushSt_new n st s.pk hk) (by rw [ht]; exact ho)]
+  refine ⟨flushSt_new n st s.pk hk, by rw [ht], by simp [putObj, ht], rfl⟩
+
+/-! ### the merged state reaches the database -/
+
+theorem netChange_clean (x : Attr) (h : x.com = none) : x.netChange = false := by
+  simp [Attr.netChange, h]
+
+theorem rowAfter_clean (o : Obj) (row : Option (Int × Int)) (ha : o.a.com = none) (hb : o.b.com = none) :
+    rowAfter o row = row := by
+  cases row with
+  | none => rfl
+  | some r => simp [rowAfter, netChange_clean _ ha, netChange_clean _ hb]
+
+/-- one instance's UPDATE in the flush of a row -/
+def rowStep (st : St) (k : Nat) (row : Option (Int × Int)) (t : Nat) : Option (Int × Int) :=
+  match st.objs k t with
+  | some o => rowAfter o row
+  | none => row
+
+theorem rowFlush_eq (st : St) (k : Nat) :
+    rowFlush st k = rowStep st k (rowStep st k (rowStep st k (st.db k) 0) 1) 2 := rfl
+
+/-- the UPDATEs of one row when at most the instance under token `t` carries history -/
+theorem rowFlush_single (st : St) (k t : Nat) (ht : t < 3)
+    (hclean : ∀ u o, u ≠ t → st.objs k u = some o → o.a.com = none ∧ o.b.com = none) :
+    rowFlush st k = rowStep st k (st.db k) t := by
+  have other : ∀ u, u ≠ t → ∀ row, rowStep st k row u = row := by
+    intro u hu row
+    unfold rowStep
+    cases h : st.objs k u with
+    | none => rfl
+    | some o => exact rowAfter_clean o row (hclean u o hu h).1 (hclean u o hu h).2
+  have : t = 0 ∨ t = 1 ∨ t = 2 := by omega
+  rw [rowFlush_eq]
+  rcases this with h | h | h <;> subst h
+  · rw [other 2 (by decide), other 1 (by decide)]
+  · rw [other 2 (by decide), other 0 (by decide)]
+  · rw [other 0 (by decide), other 1 (by decide)]
+
+/-- what one attribute contributes to the row at the flush after merge: the source's value -/
+theorem persisted_attr (x : Attr) (hx : x.com = none) (rv v : Int) (hs : ∀ w, x.cur = some w → rv = w) :
+    ((if (copyAttr x (some v)).netChange then (copyAttr x (some v)).cur else some rv).getD 0) = v := by
+  simp only [copyAttr, setAttr, hx, Attr.netChange]
+  cases hc : x.cur with
+  | none => simp
+  | some w =>
+    have := hs w hc
+    subst this
+    by_cases hw : rv = v
+    · subst hw; simp
+    · simp [hw]
+
+/-- the Session's instance mirrors its row: the row exists and every loaded attribute of
+    the (history-free) instance equals it.  True for instances this Session loaded or
+    flushed; not for instances stamped by merge(load=False), which asserts without looking. -/
+def SyncedRow (o : Obj) (row : Option (Int × Int)) : Prop :=
+  ∃ r, row = some r ∧ (∀ v, o.a.cur = some v → r.1 = v) ∧ (∀ v, o.b.cur = some v → r.2 = v)
+
+/-- core: merge into a just-flushed state, then flush -/
+theorem merge_then_flush_row (n : Nat) (st1 : St) (s : Src) (hk : s.pk < n) (ht : s.tok < 3)
+    (hnew : st1.new s.pk = none) (hdel : ∀ u, st1.del s.pk u = false)
+    (hclean : ∀ u o, st1.objs s.pk u = some o → o.a.com = none ∧ o.b.com = none)
+    (hsync : ∀ o, st1.objs s.pk s.tok = some o → SyncedRow o (st1.db s.pk)) :
+    ∃ r, (flushSt n (mergeLoad st1 s).1).db s.pk = some r ∧
+      (∀ v, s.a = some v → r.1 = v) ∧ (∀ v, s.b = some v → r.2 = v) := by
+  have hany : ∀ (db : Nat → Option (Int × Int)) (objs : Nat → Nat → Option Obj) (q : Nat),
+      anyDel ⟨db, objs, st1.new, st1.del, q⟩ s.pk = false := by
+    intro _ _ _; simp [anyDel, tokens, hdel]
+  unfold mergeLoad
+  simp only [hnew]
+  cases ho : st1.objs s.pk s.tok with
+  | some o =>
+    obtain ⟨r, hr, sa, sb⟩ := hsync o ho
+    obtain ⟨ca, cb⟩ := hclean s.tok o ho
+    simp only [flushSt, hk, if_true, hnew, hany, Bool.false_eq_true, if_false]
+    rw [rowFlush_single _ s.pk s.tok ht (by
+      intro u o2 hu h2
+      simp only [putObj, hu, and_false, if_false] at h2
+      exact hclean u o2 h2)]
+    simp only [rowStep, putObj_same, hr, rowAfter]
+    refine ⟨_, rfl, ?_, ?_⟩
+    · intro v hv; rw [hv]; exact persisted_attr o.a ca r.1 v sa
+    · intro v hv; rw [hv]; exact persisted_attr o.b cb r.2 v sb
+  | none =>
+    cases hr : st1.db s.pk with
+    | some r =>
+      obtain ⟨va, vb⟩ := r
+      simp only [flushSt, hk, if_true, hnew, hany, Bool.false_eq_true, if_false]
+      rw [rowFlush_single _ s.pk s.tok ht (by
+        intro u o2 hu h2
+        simp only [putObj, hu, and_false, if_false] at h2
+        exact hclean u o2 h2)]
+      simp only [rowStep, putObj_same, hr, rowAfter]
+      refine ⟨_, rfl, ?_, ?_⟩
+      · intro v hv; rw [hv]; exact persisted_attr (loaded va) rfl va v (by intro w hw; simpa [loaded] using hw)
+      · intro v hv; rw [hv]; exact persisted_attr (loaded vb) rfl vb v (by intro w hw; simpa [loaded] using hw)
+    | none =>
+      simp only [flushSt, hk, if_true]
+      refine ⟨_, rfl, ?_, ?_⟩
+      · intro v hv; rw [hv]; rfl
+      · intro v hv; rw [hv]; rfl
+
+/-- **merge_autoflush_persisted**: with autoflush on, after merge(load=True) and the next
+    flush the row of the source's identity EXISTS and carries every attribute loaded on the
+    source — whatever was pending in the Session before (deletes, pending instances,
+    modifications).  Hypothesis: if after the autoflush the Session still holds the identity,
+    that instance mirrors its row (`SyncedRow`; false only after a load=False stamp, which
+    the harness excludes in the same way).
+    Full statement without the hypothesis is false: see `merge_persisted_needs_sync_counterexample`. -/
+theorem merge_autoflush_persisted (n : Nat) (st : St) (s : Src) (hk : s.pk < n) (ht : s.tok < 3)
+    (hsync : ∀ o, (flushSt n st).objs s.pk s.tok = some o → SyncedRow o ((flushSt n st).db s.pk)) :
+    ∃ r, (flushSt n (mergeAf true n true st s).1).db s.pk = some r ∧
+      (∀ v, s.a = some v → r.1 = v) ∧ (∀ v, s.b = some v → r.2 = v) := by
+  rw [merge_autoflush_eq_flush_then_merge]
+  simp only [merge, if_true]
+  exact merge_then_flush_row n (flushSt n st) s hk ht (flushSt_new n st s.pk hk)
+    (fun u => flushSt_del n st s.pk u hk) (fun u o h => flushSt_clean n st s.pk u o hk h) hsync
+
+/-- an instance stamped by load=False with a value the row does not have (row a = 1,
+    instance a = 5, no history): merging a = 5 is no net change, the row keeps 1 -/
+theorem merge_persisted_needs_sync_counterexample :
+    ∃ (st : St) (s : Src), s.pk < 1 ∧ s.tok < 3 ∧ s.a = some 5 ∧
+      (flushSt 1 (mergeAf true 1 true st s).1).db s.pk = some (1, 2) := by
+  refine ⟨(mergeNoLoad (run true 1 St.init [.insert 0 1 2]) ⟨0, 0, some 5, none, true, false⟩).1,
+          ⟨0, 0, some 5, none, true, false⟩, by decide, by decide, rfl, by decide⟩
+
+/-- **merge_autoflush_persisted_after_delete**: the identity was marked deleted: no
+    hypothesis needed, the merged state is re-created and reaches the database -/
+theorem merge_autoflush_persisted_after_delete (n : Nat) (st : St) (s : Src) (hk : s.pk < n) (ht : s.tok < 3)
+    (hd : st.del s.pk s.tok = true) (hn : st.new s.pk = none) :
+    ∃ r, (flushSt n (mergeAf true n true st s).1).db s.pk = some r ∧
+      (∀ v, s.a = some v → r.1 = v) ∧ (∀ v, s.b = some v → r.2 = v) := by
+  apply merge_autoflush_persisted n st s hk ht
+  intro o ho
+  rw [(flush_removes_deleted n st s.pk s.tok hk ht hn hd).1] at ho
+  cases ho
+
+/-- **merge_autoflush_persisted_pending**: the identity was pending: likewise -/
+theorem merge_autoflush_persisted_pending (n : Nat) (st : St) (s : Src) (p : Obj) (hk : s.pk < n) (ht : s.tok = 0)
+    (hp : st.new s.pk = some p) :
+    ∃ r, (flushSt n (mergeAf true n true st s).1).db s.pk = some r ∧
+      (∀ v, s.a = some v → r.1 = v) ∧ (∀ v, s.b = some v → r.2 = v) := by
+  apply merge_autoflush_persisted n st s hk (by omega)
+  intro o ho
+  have h0 : (flushSt n st).objs s.pk s.tok = some (flushObj p) := by simp [flushSt, hk, hp, ht]
+  rw [h0] at ho
+  cases ho
+  refine ⟨((p.a.cur).getD 0, (p.b.cur).getD 0), by simp [flushSt, hk, hp], ?_, ?_⟩
+  · intro v hv; simp only [flushObj] at hv; simp [hv]
+  · intro v hv; simp only [flushObj] at hv; simp [hv]
 
 /-! ## non-vacuity -/
 
 /-- partial source onto a loaded, modified object: loaded attribute copied, the other
     one (pending value 11) kept; second merge changes nothing -/
 example :
-    let st := run 1 St.init [.insert 0 1 2, .load 0 0, .set 0 0 true 11]
+    let st := run false 1 St.init [.insert 0 1 2, .load 0 0, .set 0 0 true 11]
     let s : Src := ⟨0, 0, some 5, none, true, false⟩
     (mergeLoad st s).2 = .merged false 0 (some 5) (some 11) true ∧
     (mergeLoad (mergeLoad st s).1 s).2 = .merged false 0 (some 5) (some 11) true ∧
@@ -286,16 +588,59 @@ example :
 
 /-- load=False on an identity the Session does not hold: new persistent instance, no SQL -/
 example :
-    let st := run 1 St.init [.insert 0 1 2]
+    let st := run false 1 St.init [.insert 0 1 2]
     (mergeNoLoad st ⟨0, 0, some 5, none, true, false⟩).2 = .merged true 0 (some 5) none false ∧
     (mergeNoLoad st ⟨0, 0, some 5, none, true, false⟩).1.sql = st.sql := by decide
 
 /-- a source whose key carries identity token 1, Session holds only the token-less instance:
     a second instance (pk 0, token 1) is loaded and returned, the other one is untouched -/
 example :
-    let st := run 1 St.init [.insert 0 1 2, .load 0 0]
+    let st := run false 1 St.init [.insert 0 1 2, .load 0 0]
     let s : Src := ⟨0, 1, some 5, none, true, false⟩
     (mergeLoad st s).2 = .merged false 1 (some 5) (some 2) true ∧
     ((mergeLoad st s).1.objs 0 0).map (·.a.cur) = some (some 1) := by decide
+
+/-- pending `Session.delete()` of the identity, autoflush on: merge returns a NEW pending
+    instance carrying the source's state, not marked deleted, and after the flush the row is
+    the merged one.  With autoflush off (documented) the doomed instance is returned, still
+    marked, and the flush deletes the row. -/
+example :
+    let st := run true 1 St.init [.insert 0 1 2, .load 0 0, .del 0 0]
+    let s : Src := ⟨0, 0, some 5, none, true, false⟩
+    st.del 0 0 = true ∧ st.new 0 = none ∧
+    (mergeAf true 1 true st s).2 = .merged true 0 (some 5) none true ∧
+    (mergeAf true 1 true st s).1.del 0 0 = false ∧
+    (flushSt 1 (mergeAf true 1 true st s).1).db 0 = some (5, 0) ∧
+    (mergeAf false 1 true st s).2 = .merged false 0 (some 5) (some 2) true ∧
+    (mergeAf false 1 true st s).1.del 0 0 = true ∧
+    (flushSt 1 (mergeAf false 1 true st s).1).db 0 = none := by decide
+
+/-- the identity is pending (merged before, no row), autoflush on: the second merge lands on
+    it — nothing pending afterwards, not new, no SELECT; `SyncedRow` holds after the flush -/
+example :
+    let st := run true 1 St.init [.merge true ⟨0, 0, some 5, none, false, false⟩]
+    let s : Src := ⟨0, 0, none, some 7, false, false⟩
+    (st.new 0).isSome = true ∧
+    (mergeAf true 1 true st s).2 = .merged false 0 (some 5) (some 7) true ∧
+    (mergeAf true 1 true st s).1.new 0 = none ∧
+    (mergeAf true 1 true st s).1.sql = st.sql ∧
+    (flushSt 1 (mergeAf true 1 true st s).1).db 0 = some (5, 7) := by decide
+
+/-- `SyncedRow` is satisfiable by a loaded-and-modified instance: the autoflush writes the
+    modification, the instance then mirrors its row -/
+example :
+    let st := run true 1 St.init [.insert 0 1 2, .load 0 0, .set 0 0 true 11]
+    ∀ o, (flushSt 1 st).objs 0 0 = some o → SyncedRow o ((flushSt 1 st).db 0) := by
+  intro st o ho
+  have h : (flushSt 1 st).objs 0 0 = some ⟨⟨some 1, none⟩, ⟨some 11, none⟩⟩ := by decide
+  rw [h] at ho
+  cases ho
+  exact ⟨(1, 11), by decide, by intro v hv; cases hv; rfl, by intro v hv; cases hv; rfl⟩
+
+/-- load=False in an autoflush Session, pending delete present: nothing is flushed -/
+example :
+    let st := run true 1 St.init [.insert 0 1 2, .load 0 0, .del 0 0]
+    (mergeAf true 1 false st ⟨0, 0, some 5, none, true, false⟩).1.del 0 0 = true ∧
+    (mergeAf true 1 false st ⟨0, 0, some 5, none, true, false⟩).1.db 0 = some (1, 2) := by decide
 
 end SaVerif.Props.C45
